@@ -130,6 +130,7 @@ type FuncCtx struct {
 	pendingAxioms bool
 	lastCalleeGhosts map[string]Term
 	inlineSite string
+	pendingPass map[string]Term
 	fvTArgs    map[string]*Sort
 	fvSig      *types.Signature
 	inlineRef  *FuncRef
@@ -390,7 +391,7 @@ func (fc *FuncCtx) mergeStates(base *St, outs []*St, extra [][]Term) []Term {
 		}
 		res.vars[obj] = mergeTerm(obj.Name(), vals)
 	}
-	mergeMap := func(get func(*St) map[string]Term, set func(string, Term), hint string) {
+	mergeMap := func(get func(*St) map[string]Term, set func(string, Term), hint string, entryPrefix string) {
 		keys := map[string]bool{}
 		for _, o := range live {
 			for k := range get(o) {
@@ -414,26 +415,40 @@ func (fc *FuncCtx) mergeStates(base *St, outs []*St, extra [][]Term) []Term {
 				vals = append(vals, v)
 			}
 			if !ok {
-				// created lazily on some path only: it is the entry value there; use first available
+				// a component is created lazily: a path that never touched it still has its entry value,
+				// the entry constant <prefix><name>
+				var sample Term
 				for _, o := range live {
 					if v, has := get(o)[k]; has {
-						vals = append(vals[:0], v)
+						sample = v
 						break
 					}
 				}
-				// paths without it have not touched it: the lazily created term is the entry constant, same on all
-				set(k, vals[0])
-				continue
+				vals = vals[:0]
+				for _, o := range live {
+					if v, has := get(o)[k]; has {
+						vals = append(vals, v)
+					} else if entryPrefix != "" {
+						name := entryPrefix + k
+						if entryPrefix != "glob0_" && entryPrefix != "trn0_" {
+							name = entryPrefix + mangle(k)
+						}
+						fc.declare(name, sample.Sort)
+						vals = append(vals, T(name, sample.Sort))
+					} else {
+						vals = append(vals, sample)
+					}
+				}
 			}
 			set(k, mergeTerm(hint+"_"+mangle(k), vals))
 		}
 	}
-	mergeMap(func(s *St) map[string]Term { return s.ghost }, func(k string, t Term) { res.ghost[k] = t }, "g")
-	mergeMap(func(s *St) map[string]Term { return s.heaps }, func(k string, t Term) { res.heaps[k] = t }, "heap")
-	mergeMap(func(s *St) map[string]Term { return s.mdom }, func(k string, t Term) { res.mdom[k] = t }, "mdom")
-	mergeMap(func(s *St) map[string]Term { return s.mval }, func(k string, t Term) { res.mval[k] = t }, "mval")
-	mergeMap(func(s *St) map[string]Term { return s.trn }, func(k string, t Term) { res.trn[k] = t }, "trn")
-	mergeMap(func(s *St) map[string]Term { return s.glob }, func(k string, t Term) { res.glob[k] = t }, "glob")
+	mergeMap(func(s *St) map[string]Term { return s.ghost }, func(k string, t Term) { res.ghost[k] = t }, "g", "")
+	mergeMap(func(s *St) map[string]Term { return s.heaps }, func(k string, t Term) { res.heaps[k] = t }, "heap", "heap0_")
+	mergeMap(func(s *St) map[string]Term { return s.mdom }, func(k string, t Term) { res.mdom[k] = t }, "mdom", "mdom0_")
+	mergeMap(func(s *St) map[string]Term { return s.mval }, func(k string, t Term) { res.mval[k] = t }, "mval", "mval0_")
+	mergeMap(func(s *St) map[string]Term { return s.trn }, func(k string, t Term) { res.trn[k] = t }, "trn", "")
+	mergeMap(func(s *St) map[string]Term { return s.glob }, func(k string, t Term) { res.glob[k] = t }, "glob", "glob0_")
 	// traces
 	{
 		keys := map[string]bool{}
